@@ -1,5 +1,6 @@
 CONSTANTS
   MaxLen = 3
+  MaxInner = 1
   MaxKeys = 2
   Export = TRUE
 SPECIFICATION Spec
